@@ -147,6 +147,7 @@ def byLabel (w : W) (e : Ev) : List (List WA) :=
   | "kR" => [[.chk fun w => w.st.wB == .done]]
   | "kh" => [[hChk h fun x => x.hc != .off]]
   | "kg" => [[.chk fun w => match w.st.hl with | .rh _ (some (i, 2)) => i == h | _ => false]]
+  | "kl" => [[.chk fun w => match w.st.hl with | .rh _ none => true | _ => false]]
   | "kw" => [[.chk fun w => w.st.watch == .presel || w.st.watch == .sel]]
   | "stp" => [[.m (.stop h)]]
   | "stpr" => [[.chk fun w => w.st.panicked == (e.s1 != "ok")]]
